@@ -16,6 +16,15 @@ CHECKS = {
  "C04": ("red-zone sanitizer for the decoders: guard page (mmap+PROT_NONE, SetPanicOnFault), canary capacity, allocation meter, differential against the reference decoder; thorough adds -race/checkptr",
          "Each hostile input is decoded from three memory placements by every decoder and by Request.Fields; panics, faults, capacity-dependent results, over-cap bodies, invalid accepted values and allocation above 16*len+64KiB are violations.",
          "reads before the start of a slice are impossible in safe Go; allocation measured with runtime.ReadMemStats in a single-goroutine worker", "3/C04"),
+ "C03": ("reference-model runtime monitor at the socket (raw server/client bytes vs header||(body XOR independent MD5 pad), cleartext seen by handlers and returned by Client.Send)",
+         "The real server loop and Client.Send run over a scripted in-memory connection; every written byte and every delivered cleartext is compared with the reference pad for secrets/sessions/versions/sequence numbers/body lengths listed in the evidence.",
+         "trusts crypto/md5 and h/rfc8907.Pad; Client driven through the verif-only constructor NewClientFromConn", "3/C03"),
+ "C05": ("scripted-delivery runtime monitor (generated TCP segmentation schedules against the real reader; wrapping Handler + connection event log)",
+         "Streams of packets are cut by 17 segmentation schedules and fed to the real server loop / Client.Send; the handler must see exactly the packets sent; truncation, stall and oversize-header scenarios are judged on the Read/Close event log and a heap meter.",
+         "simnet delivers at most one chunk per Read; oversize heap bound 1 MiB measured with ReadMemStats", "3/C05"),
+ "C06": ("raw-header runtime monitor in lock-step (reply bytes re-framed independently and compared octet by octet with the mirrored header and reference pad)",
+         "All 196608 request headers (3 types x 2 minor x 256 flag octets x 128 odd sequence numbers) and every reply kind/size are exchanged with the real server loop; each reply's raw header, length field and obfuscation are checked; full 1..255 walks of one session.",
+         "scope: Reply/ReplyWithContext; a RESTART reply to request 255 is unjudged (statement ambiguous)", "3/C06"),
 }
 
 NA_REASON = "check not built yet in this round (work in progress; see DESIGN.md section 3 for the planned monitor)"
